@@ -205,9 +205,18 @@ func c15rigNewBroker(o c15rigBrokerOpts) (*c15rigBroker, error) {
 		ClientPublishLimit: o.publishLimit,
 		Rules:              []*Rule{{When: &When{PacketType: Publish}, Pipeline: c15rigPipeName}},
 	}
-	b := newBroker(spec, store, &c15rigMapper{pipe: pipe}, func(string, string) ([]string, error) { return nil, nil })
+	// newBroker returns nil (before it has started anything) when the listener cannot be bound;
+	// ":0" is a dual-stack wildcard bind and can collide with a loopback-only listener that
+	// holds the chosen port, so try again a few times.
+	var b *Broker
+	for try := 0; try < 8 && b == nil; try++ {
+		if try > 0 {
+			time.Sleep(time.Duration(try) * 5 * time.Millisecond)
+		}
+		b = newBroker(spec, store, &c15rigMapper{pipe: pipe}, func(string, string) ([]string, error) { return nil, nil })
+	}
 	if b == nil {
-		return nil, fmt.Errorf("newBroker returned nil")
+		return nil, fmt.Errorf("newBroker returned nil 8 times (listener could not be bound)")
 	}
 	ta, ok := b.listener.Addr().(*net.TCPAddr)
 	if !ok {
